@@ -6,6 +6,10 @@ commits = subprocess.run(["git","-C","/repo","log","--format=%H %s"],capture_out
 hook_commits = [c.split()[0] for c in commits if c.split(" ",1)[1].startswith("verif:")]
 
 CLAIMED = {
+ "C06": dict(
+   text="The scanner pkg/scan (FindScanType and its six helpers, all byte loops with inductive invariants, no bound on the field length) is proved equal to a string-level specification of the documented number grammar (ClassStr: sign, 0x/0o/0b prefixes, leading zeros, float characters, everything else string); the four 128-cell digit tables are checked cell by cell; the inferrer tables are proved to be indexed by scan type; every inferrer's precondition is the scanner's postcondition for its class and its postcondition gives the documented kind (int/float/string/empty, -O, -A, -S variants), a well-formed payload and the untouched original text; Type() infers once; the is_* functions are proved to be functions of that single classification.",
+   note="Assumed: strconv.ParseInt/ParseUint/ParseFloat are uninterpreted (numeric VALUES of literals, hex two's-complement wrap and float accuracy are not decided; one trusted axiom: ParseFloat accepts every all-decimal-digit text); lengths of strings/slices <= 2^40; JSON decode dispatch (string token never inferred) is not under contract.",
+   ref="DESIGN.md §3.C06"),
  "C08": dict(
    text="Static table invariants and contracts: every cell of the 26 disposition matrices/vectors of the arithmetic, bitwise, dot, min/max and math-library operators is read from the composite-literal initialiser of /repo and must hold a function whose own proved contract puts it in the class the null-data rule demands (absent op absent = absent, absent/empty identity returns the other operand pointer-identically, error with scalar = error, mirrored kinds for commutative operators); the dispatchers BIF_* are verified against the table contents for all 144 operand-kind pairs symbolically (index safety, kernel preconditions met in every cell).",
    note="Assumed: tables are only stored to by the package initialiser (checked by a static scan of all stores, obligation #table.frame); singleton invariants (ABSENT, VOID, ...) assumed across unverified code; error-constructor contracts trusted; the pending (not yet inferred) case of Type() is specified under C06. Not decided here: the assignment-skip clause inside pkg/dsl/cst (interface dispatch over the AST node types) and variadic min/max folding.",
